@@ -1444,6 +1444,9 @@ class Tensor(object):
     ):
 
         key = self._process_key(key)
+        if not self.batch:
+            self._setitem(key, value)
+            return
         scalar = False
         if isinstance(value, np.ndarray):
             value = tn.Tensor(torch.tensor(value), batch=self.batch)
@@ -1473,15 +1476,6 @@ class Tensor(object):
 
         for i in range(key_length):
             if not isinstance(key[i], slice) and not hasattr(key[i], "__len__"):
-                if not self.batch:
-                    if not -self.shape[i] <= key[i] < self.shape[i]:
-                        raise IndexError(
-                            "index {} is out of bounds for dimension {} with size {}".format(
-                                key[i], i, self.shape[i]
-                            )
-                        )
-                    if key[i] < 0:  # slice(-1, 0) would be empty
-                        key[i] += self.shape[i]
                 key[i] = slice(key[i], key[i] + 1)
 
             subtract_core = torch.zeros_like(self.cores[i])
@@ -1576,6 +1570,99 @@ class Tensor(object):
             + tn.Tensor(add_cores, batch=self.batch)
         )
         self.__init__(result.cores, result.Us, self.idxs, batch=self.batch)
+
+    def _setitem(self, key: Sequence[Any], value: Any):
+        """
+        Assignment for non-batch tensors, computed as `self - (self restricted to the selected region) +
+        (value embedded in zeros)`.
+
+        :param key: a processed key (see `_process_key()`) made of integers and slices
+        :param value: a scalar, a NumPy/PyTorch array or a :class:`Tensor` of the selected shape
+        """
+
+        N = self.dim()
+        dtype = self.cores[0].dtype
+        device = self.cores[0].device
+
+        # Integers become length-1 slices; the value gets singleton modes there
+        int_dims = []
+        for i in range(N):
+            if isinstance(key[i], slice):
+                continue
+            if key[i] is None or hasattr(key[i], "__len__"):
+                raise IndexError(
+                    "Only integers, slices and Ellipsis are supported in tensor assignment"
+                )
+            k = int(key[i])
+            if not -self.shape[i] <= k < self.shape[i]:
+                raise IndexError(
+                    "index {} is out of bounds for dimension {} with size {}".format(
+                        k, i, self.shape[i]
+                    )
+                )
+            if k < 0:  # slice(-1, 0) would be empty
+                k += self.shape[i]
+            key[i] = slice(k, k + 1)
+            int_dims.append(i)
+        full_shape = [len(range(*key[i].indices(self.shape[i]))) for i in range(N)]
+        selected_shape = [full_shape[i] for i in range(N) if i not in int_dims]
+
+        scalar = False
+        if isinstance(value, np.ndarray):
+            value = torch.tensor(value)
+        if isinstance(value, torch.Tensor):
+            if value.dim() == 0:
+                value = value.item()
+                scalar = True
+        elif not isinstance(value, tn.Tensor):
+            scalar = True
+        if not scalar and list(value.shape) != selected_shape:
+            raise ValueError(
+                "shape mismatch in tensor assignment: {} (lhs) != {} (rhs)".format(
+                    selected_shape, list(value.shape)
+                )
+            )
+        if any(sh == 0 for sh in full_shape):  # Nothing is selected
+            return
+        if not scalar:
+            if isinstance(value, torch.Tensor):
+                value = tn.Tensor(value.reshape(full_shape).to(device))
+            else:
+                if len(int_dims) > 0:
+                    value = tn.unsqueeze(value, int_dims)
+                value = value.decompress_tucker_factors()
+
+        # Slices refer to the spatial axis, which cores with Tucker factors do not expose
+        this = self
+        if any(U is not None for U in self.Us):
+            this = self.decompress_tucker_factors()
+
+        subtract_cores = []
+        add_cores = []
+        for i in range(N):
+            core = this.cores[i]
+            subtract_core = torch.zeros_like(core)
+            subtract_core[..., key[i], :] = core[..., key[i], :]
+            subtract_cores.append(subtract_core)
+            if scalar:
+                if core.dim() == 3:
+                    add_core = torch.zeros(1, self.shape[i], 1, dtype=dtype, device=device)
+                else:
+                    add_core = torch.zeros(self.shape[i], 1, dtype=dtype, device=device)
+                add_core[..., key[i], :] = 1
+                if i == 0:
+                    add_core *= value
+            else:
+                vcore = value.cores[i]
+                add_core = torch.zeros(
+                    tuple(vcore.shape[:-2]) + (self.shape[i], vcore.shape[-1]),
+                    dtype=vcore.dtype,
+                    device=device,
+                )
+                add_core[..., key[i], :] = vcore
+            add_cores.append(add_core)
+        result = this - tn.Tensor(subtract_cores) + tn.Tensor(add_cores)
+        self.__init__(result.cores, result.Us, self.idxs, batch=False)
 
     def tucker_core(self):
         """
